@@ -12,6 +12,7 @@ package pgfake
 
 import (
 	"context"
+	"database/sql"
 	"database/sql/driver"
 	"errors"
 	"fmt"
@@ -125,7 +126,13 @@ func (c *conn) handle() (string, int) {
 	}
 }
 
-func (c *conn) BeginTx(ctx context.Context, _ driver.TxOptions) (driver.Tx, error) {
+func (c *conn) BeginTx(ctx context.Context, opts driver.TxOptions) (driver.Tx, error) {
+	// LeanPG models READ COMMITTED only (DESIGN §9.4): a transaction asking for another isolation
+	// level is outside the model, and every theorem about schedules assumes it is never asked for
+	// (the unchanged code never does). Refuse it loudly instead of silently running it as READ COMMITTED.
+	if lvl := sql.IsolationLevel(opts.Isolation); lvl != sql.LevelDefault && lvl != sql.LevelReadCommitted {
+		return nil, fmt.Errorf("pgfake: isolation level %s requested; the modelled Postgres implements READ COMMITTED only", lvl)
+	}
 	if _, err := c.run(ctx, "BEGIN"); err != nil {
 		return nil, err
 	}
